@@ -583,6 +583,7 @@ doTbl(char **tok, int ntok) {
 #include "lvh_dump.h"
 #include "lvh_meta.h"
 #include "lvh_log.h"
+#include "lvh_lex.h"
 #include "lvh_hyph.h"
 #include "lvh_cache.h"
 
@@ -710,6 +711,7 @@ main(int argc, char **argv) {
 		} else if (doDumpOp(tok, ntok)) {
 		} else if (doMetaOp(tok, ntok)) {
 		} else if (doLogOp(tok, ntok)) {
+		} else if (doLexOp(tok, ntok)) {
 		} else if (doHyphOp(tok, ntok)) {
 		} else if (doCacheOp(tok, ntok)) {
 		} else {
